@@ -1,6 +1,7 @@
 package main
 
 import (
+	"bytes"
 	"fmt"
 	"io"
 	"strings"
@@ -122,6 +123,8 @@ func overlapWorks() []overlapWork {
 		{"type1.Read(pfa)", corpus.Fonts()[0].Data, 700, font},
 		{"type1.Read(noeexec)", corpus.Fonts()[3].Data, 900, font},
 		{"ReadCMap", corpus.CMaps()[0].Data, 200, cmap},
+		// a creation date in the reader's fourth layout (the list of layouts is package state)
+		{"type1.Read(noeexec, date in the Adobe layout)", withDate(corpus.Fonts()[3].Data, "Mon Jan 2 15:04:05 2006"), 900, font},
 		// from here on: writers, the other readers and the name tables
 		{"Font.Write(pfa, default options)", nil, 0, func(_ io.Reader, yield func()) string {
 			w := &yieldWriter{yield: yield, every: 12}
@@ -184,6 +187,24 @@ func overlapWorks() []overlapWork {
 		}},
 	}
 	return ws
+}
+
+// withDate gives a clear-text font file a %%CreationDate comment of its own.
+func withDate(font []byte, date string) []byte {
+	lines := bytes.SplitAfter(font, []byte("\n"))
+	var out []byte
+	done := false
+	for i, l := range lines {
+		if bytes.HasPrefix(l, []byte("%%CreationDate:")) {
+			continue
+		}
+		out = append(out, l...)
+		if i == 0 && !done {
+			out = append(out, []byte("%%CreationDate: "+date+"\n")...)
+			done = true
+		}
+	}
+	return out
 }
 
 // holeFont: standard names at their standard codes; with B the font has a
